@@ -1,6 +1,7 @@
 From Coq Require Import Extraction ExtrOcamlBasic.
-From IV Require Import Base.Bytes Model.Conc Model.ConcMem Model.ConcFile.
+From IV Require Import Base.Bytes Model.Conc Model.ConcMem Model.ConcFile Model.ConcEnfSpec.
 Extraction Language OCaml.
 Extraction "c09_model.ml" conv_anchor seq_exec seq_run sget
   init_sys enf0 step setpc drive all_done enabled results s_boxes s_thr s_enf s_log is_idle
-  finit fwith_ops fstep fsetpc fdrive fall_done fenabled fresults f_idx f_thr f_mbd f_l1 f_l2 pick.
+  finit fwith_ops fstep fsetpc fdrive fall_done fenabled fresults f_idx f_thr f_mbd f_l1 f_l2 pick
+  q0 qstep qchoices qdrive q_store.
